@@ -311,6 +311,8 @@ class NamedQubit:
         if isinstance(alias_index, AnnotatedValue) or isinstance(
             alias_from, AnnotatedValue
         ):
+            if not isinstance(alias_index, (int, float, AnnotatedValue)):
+                raise JaqalError(f"Qubit index {alias_index} is not an integer.")
             if isinstance(alias_index, AnnotatedValue) and alias_index.kind not in (
                 ParamType.INT,
                 ParamType.NONE,
